@@ -55,6 +55,12 @@ class SymTable:
 
 
 def has_array(e, table):
+    """e varies along the summed axis: array symbols outside full reductions
+    (SIG(...) is a scalar whatever it contains)."""
+    if not any(s in table.arrays for s in e.free_symbols):
+        return False
+    if e.has(SIG):
+        e = e.replace(lambda x: x.func == SIG, lambda x: sp.Integer(1))
     return any(s in table.arrays for s in e.free_symbols)
 
 
@@ -71,6 +77,9 @@ def norm_sigma(e, table):
             out = 0
             for t in terms:
                 coeff, rest = 1, 1
+                if t.has(SIG):
+                    # scalar reductions hidden inside expanded denominators: pull them out
+                    t = sp.factor_terms(t)
                 for f in (t.args if t.func == sp.Mul else (t,)):
                     if has_array(f, table):
                         rest = rest * f
@@ -374,6 +383,14 @@ class SymX(Domain):
                 return None
             return sp.nsimplify(node.value, rational=True)
         if isinstance(node, ast.Name):
+            if v.obj is not None and v.obj in st.heap and v.view == "whole":
+                # the heap cell is authoritative: element stores since the binding make
+                # the expression attached to the local's value stale
+                ob = st.heap[v.obj]
+                if ob.dom.get("SYMX_partial") or ob.dom.get("SYMX_idx"):
+                    return None
+                if self.name in ob.dom:
+                    return ob.dom[self.name]
             d = v.dom.get(self.name)
             if d is not None:
                 return d
